@@ -417,6 +417,13 @@ def check_prim(rep: Rep, pre: str, comp: Competition) -> None:
     predp = comp.field(p, "pred")
     from .ir import not_nil_forms
     g_preds = not_nil_forms(predp)
+    # `p != start`: in Prim's loop over a fresh graph the start node is the only one that is removed without ever having
+    # been offered an arc, i.e. the only one whose predecessor is still NIL (PRIM-start, PRIM-start-pred, PRIM-pred)
+    before = [e for e in w.events if e.seq < comp.loop.first_seq]
+    starts = [e for e in before if e.kind == "call" and e.name == "insert" and e.target == ("attr", comp.heap, "insert")]
+    if len(starts) == 1 and starts[0].args:
+        from .ir import mk_cmp
+        g_preds = g_preds + [mk_cmp("!=", p, starts[0].args[0])]
     g_lab = ("cmp", "!=", *sorted([comp.field(p, "label"), comp.field(predp, "label")], key=repr))
     marks = [e for e in comp.events if e.kind == "store" and e.target[0] == "attr" and e.target[2] == "status"]
 
